@@ -191,6 +191,30 @@ func ReactScenarios() []History {
 	)
 	add("odds-and-ends-at-their-boundaries", smallParams(), map[string]int64{"c2": 8, "c1": 200, "p1": 100, "p3": 100}, ops...)
 
+	// a fee with a fractional part above one half (3 x 0.9 = 2.7: the fee is 2), refunded from an escrow that
+	// holds nothing else: a malformed answer to the only request in flight after the owner has withdrawn.
+	// And time promotions whose windows start and end between two whole seconds, with blocks inside the
+	// same second before, at and after those instants.
+	ops = []Ev{
+		{Name: "Define", Signer: "o1", Svc: "s1"},
+		{Name: "Bind", Signer: "o1", Svc: "s1", Prov: "p1", Deposit: 40, DShape: "ok", Qos: 1,
+			Pr: MPricing{Price: 3, PT: []PromoT{}, PV: []PromoV{{V: 1, D: 90}}}},
+		{Name: "Bind", Signer: "o1", Svc: "s1", Prov: "p2", Deposit: 400, DShape: "ok", Qos: 1,
+			Pr: MPricing{Price: 10, PT: []PromoT{{S: NowOffset + 13, E: NowOffset + 27, D: 50}}, PV: []PromoV{}}}, // 1.3 s to 2.7 s
+		{Name: "Call", Signer: "c1", Svc: "s1", Provs: []string{"p1"}, Cap: 10, Timeout: 2},
+		eb(1),
+		{Name: "Respond", Signer: "p1", Rid: rid(1, 1, 1, 0), Kind: "valid"},
+		{Name: "Withdraw", Signer: "o1"},
+		{Name: "Call", Signer: "c1", Svc: "s1", Provs: []string{"p1"}, Cap: 10, Timeout: 2},
+		eb(1),
+		{Name: "Respond", Signer: "p1", Rid: rid(2, 1, 2, 0), Kind: "bad"},
+	}
+	// a call to p2 in every tenth of a second from 1.0 s to 3.0 s
+	for i := 0; i < 21; i++ {
+		ops = append(ops, Ev{Name: "Call", Signer: "c2", Svc: "s1", Provs: []string{"p2"}, Cap: 10, Timeout: 1}, eb(1))
+	}
+	add("fractions-of-a-unit-and-of-a-second", smallParams(), map[string]int64{"c2": 400}, ops...)
+
 	return hs
 }
 
